@@ -94,6 +94,9 @@ type Sim struct {
 	Panic    string // first panic caught in a simulated goroutine
 	rnd      *Stream
 	mainG    *G
+	procs    map[int]*Proc
+	// Knobs are per-run tuning values read through Knob (set before Run).
+	Knobs map[string]int
 }
 
 var cur atomic.Pointer[Sim]
@@ -104,7 +107,7 @@ func Cur() *Sim { return cur.Load() }
 // New creates a simulation over the given tape.
 func New(t *Tape) *Sim {
 	s := &Sim{Tape: t, MaxSteps: 200000, MaxIdle: 100 * time.Hour, KeepEvents: 200, Procs: 4, YieldMutex: true,
-		wake: nil, stats: map[string]int{}, gmap: map[uint64]*G{}}
+		wake: nil, stats: map[string]int{}, gmap: map[uint64]*G{}, Knobs: map[string]int{}}
 	return s
 }
 
@@ -625,6 +628,85 @@ func Getpid() int {
 		return p.PID
 	}
 	return os.Getpid()
+}
+
+// Process stands in for os.Process in rewritten lock code: the liveness of a
+// simulated PID is decided by the simulator's process table, never by
+// signalling a real process of this machine.
+type Process struct {
+	pid  int
+	real *os.Process
+}
+
+// FindProcess replaces os.FindProcess.
+func FindProcess(pid int) (*Process, error) {
+	if s := cur.Load(); s != nil {
+		return &Process{pid: pid}, nil
+	}
+	p, err := os.FindProcess(pid)
+	if err != nil {
+		return nil, err
+	}
+	return &Process{pid: pid, real: p}, nil
+}
+
+// Release releases the process handle.
+func (p *Process) Release() error {
+	if p.real != nil {
+		return p.real.Release()
+	}
+	return nil
+}
+
+// Signal reports whether the simulated process is alive (nil) or gone (error).
+func (p *Process) Signal(sig os.Signal) error {
+	if p.real != nil {
+		return p.real.Signal(sig)
+	}
+	s := cur.Load()
+	if s == nil {
+		return os.ErrProcessDone
+	}
+	s.mu.Lock()
+	pr := s.procs[p.pid]
+	s.mu.Unlock()
+	if pr == nil || pr.Dead.Load() {
+		return os.ErrProcessDone
+	}
+	return nil
+}
+
+// NewProc registers a simulated process.
+func (s *Sim) NewProc(name string, pid int, host string) *Proc {
+	p := &Proc{Name: name, PID: pid, Host: host}
+	s.mu.Lock()
+	if s.procs == nil {
+		s.procs = map[int]*Proc{}
+	}
+	s.procs[pid] = p
+	s.mu.Unlock()
+	return p
+}
+
+// SignalChan replaces calls of process-global channel getters (simify T7): a
+// channel shared between bubbles cannot be used inside one, and the simulated
+// system receives no OS signals, so under simulation the zero (nil) channel is
+// returned, which a select treats as never ready.
+func SignalChan[C any](f func() C) C {
+	if cur.Load() != nil {
+		var zero C
+		return zero
+	}
+	return f()
+}
+
+// Knob returns a per-run tuning value set by the harness (0 = not set). It is
+// read by statements simify inserts at the entry of selected functions.
+func Knob(name string) int {
+	if s := cur.Load(); s != nil {
+		return s.Knobs[name]
+	}
+	return 0
 }
 
 // Hostname is the calling simulated process's host name.
